@@ -5,12 +5,16 @@
 (* repertoire, ascending unique tags).                                      *)
 (*                                                                         *)
 (*   "vr"      every VR x multiplicity 0..3 x odd/even items x              *)
-(*             {standard tag, private tag}                                  *)
+(*             {standard tag, private tag}; typed DA/TM/DT values at every  *)
+(*             precision shape (x zone for DT), multiplicity 1..3 mixed;    *)
+(*             ISO_IR 100 / ISO_IR 192 text with odd/even non-ASCII counts  *)
 (*   "struct"  nesting depth <= 2 exhaustively over the shape grammar below *)
 (*             + depth-3 chains, explicit/undefined length modes at every   *)
 (*             level, empty sequences/items, element before/after a         *)
 (*             sequence, two sequences, encapsulated pixel data (top level  *)
-(*             and nested, empty/non-empty offset table, empty fragment)    *)
+(*             and nested, empty/non-empty offset table, empty fragment);   *)
+(*             an element of every VR inside explicit/undefined-length      *)
+(*             items and sequences at depth 1 and 2                         *)
 (*   "struct3" thorough: depth 3 over the full grammar                      *)
 (*   "small"   subset of "struct" for model checking the writer machine     *)
 (*   "tiny"    a few shapes touching every writer action (coverage run)     *)
@@ -108,7 +112,66 @@ PixCases == {<<x>> : x \in PixVars} \cup {<<ElC, x>> : x \in PixVars}
               \cup {<<SQ(TagIcon, m, <<It(im, <<x>>), It(im2, <<ElC>>)>>), x>> :
                        m \in Modes, im \in Modes, im2 \in Modes, x \in PixSmall}
 
-StructCases == Ctx4(V2) \cup With(Chain3) \cup TwoSeq \cup PixCases
+---------------------------------------------------------------------------
+(* typed in-memory dates and times: every precision shape (PS35!TypedText gives  *)
+(* the text; the driver builds DicomDate / DicomTime / DicomDateTime from parts) *)
+NoT == [h |-> -1, mi |-> -1, s |-> -1, f |-> <<>>]
+Part(y, mo, d, t, tz) == [y |-> y, mo |-> mo, d |-> d, h |-> t.h, mi |-> t.mi, s |-> t.s, f |-> t.f, tz |-> tz]
+DateShapes == << [y |-> 2018, mo |-> -1, d |-> -1], [y |-> 2018, mo |-> 12, d |-> -1], [y |-> 2018, mo |-> 12, d |-> 24] >>
+Frac == <<2, 5, 0, 7, 1, 9>>
+TimeShapes == << [h |-> 13, mi |-> -1, s |-> -1, f |-> <<>>], [h |-> 13, mi |-> 4, s |-> -1, f |-> <<>>],
+                 [h |-> 13, mi |-> 4, s |-> 59, f |-> <<>>] >>
+                \o [k \in 1..6 |-> [h |-> 13, mi |-> 4, s |-> 59, f |-> SubSeq(Frac, 1, k)]]
+Zones == << <<>>, <<43, 1, 0>>, <<45, 5, 30>> >>           \* none, +0100, -0530
+DAParts == [i \in 1..3 |-> Part(DateShapes[i].y, DateShapes[i].mo, DateShapes[i].d, NoT, <<>>)]
+TMParts == [i \in 1..9 |-> Part(-1, -1, -1, TimeShapes[i], <<>>)]
+(* date-time: each date precision without time, the full date with each time precision; x each zone *)
+DTBase == [i \in 1..3 |-> [dt |-> DateShapes[i], t |-> NoT]] \o [i \in 1..9 |-> [dt |-> DateShapes[3], t |-> TimeShapes[i]]]
+DTParts == Flat([z \in 1..3 |-> [i \in 1..12 |-> Part(DTBase[i].dt.y, DTBase[i].dt.mo, DTBase[i].dt.d, DTBase[i].t, Zones[z])]])
+PartsOf(vr) == CASE vr = "DA" -> DAParts [] vr = "TM" -> TMParts [] vr = "DT" -> DTParts
+(* multiplicity 1, 2, 3: every shape alone, with its successor, and with its two successors (mixed shapes) *)
+TypedValues(vr) == LET P == PartsOf(vr)
+                       n == Len(P)
+                       At(i) == P[((i - 1) % n) + 1]
+                   IN {<<At(i)>> : i \in 1..n} \cup {<<At(i), At(i + 5)>> : i \in 1..n}
+                        \cup {<<At(i), At(i + 1), At(i + 7)>> : i \in 1..n}
+TypedElem(vr, ps) == [k |-> "P", tag |-> StdTag(vr), vr |-> vr, typed |-> ps,
+                      v |-> [i \in 1..Len(ps) |-> TypedText(vr, ps[i])]]
+TypedCasesOf(vr) == { <<TypedElem(vr, ps)>> : ps \in TypedValues(vr) }
+                      \cup { <<TypedElem(vr, ps), [k |-> "P", tag |-> StdTag("US"), vr |-> "US", v |-> << <<1, 2>> >>]>> :
+                               ps \in {<<PartsOf(vr)[i]>> : i \in 1..Len(PartsOf(vr))} }
+TypedCases == UNION {TypedCasesOf(vr) : vr \in {"DA", "TM", "DT"}}
+
+(* non-default character repertoires: (0008,0005) + one text element (as code    *)
+(* points) + a following element; odd/even numbers of non-ASCII characters       *)
+Words == << <<196, 110, 101, 97, 115>>,        \* "Äneas"   5 chars, 1 non-ASCII
+            <<103, 114, 246, 223, 101, 114>>,  \* "größer"  6 chars, 2 non-ASCII
+            <<77, 252, 108, 108>>,             \* "Müll"    4 chars, 1 non-ASCII
+            <<228, 246, 252>>,                 \* "äöü"     3 chars, 3 non-ASCII
+            <<65, 66, 67>> >>                  \* "ABC"
+CsElem(cs) == [k |-> "P", tag |-> <<8, 5>>, vr |-> "CS", v |-> <<CsCode(cs)>>]
+CpElem(vr, cs, cps) == [k |-> "P", tag |-> StdTag(vr), vr |-> vr, cs |-> cs, cp |-> cps,
+                        v |-> [i \in 1..Len(cps) |-> EncText(cs, cps[i])]]
+After == [k |-> "P", tag |-> StdTag("US"), vr |-> "US", v |-> << <<1, 2>> >>]
+CpValues(vr) == {<<Words[i]>> : i \in 1..Len(Words)}
+                  \cup (IF vr \in TextMulti THEN {<<Words[1], Words[3]>>, <<Words[3], Words[2], Words[4]>>} ELSE {})
+CharsetCases ==
+    UNION { { <<CsElem(cs), CpElem(vr, cs, w), After>> : w \in CpValues(vr) } :
+              cs \in {"ISO_IR 100", "ISO_IR 192"}, vr \in {"PN", "LO", "SH", "LT", "ST", "UT"} }
+      \cup { <<CsElem(cs), SQ(TagB, m, <<It(m, <<CpElem(vr, cs, <<Words[1]>>), After>>)>>), ElC>> :
+                cs \in {"ISO_IR 100", "ISO_IR 192"}, vr \in {"PN", "LT"}, m \in Modes }
+
+(* an element of every VR inside explicit/undefined-length items and sequences, depth 1 and 2, *)
+(* followed by further elements (reading must stay aligned with the recorded lengths)         *)
+NestValue(vr) == LET I == ItemsOf(vr) IN
+                 IF vr \in TextSingle THEN <<I[Len(I)]>> ELSE IF Len(I) = 1 THEN <<I[1], I[1]>> ELSE <<I[1], I[2], I[1]>>
+NestElem(vr) == [k |-> "P", tag |-> StdTag(vr), vr |-> vr, v |-> NestValue(vr)]
+VRNestCases ==
+    UNION { { <<SQ(TagB, m, <<It(im, <<NestElem(vr)>>)>>), ElC>> : m \in Modes, im \in Modes }
+              \cup { <<SQ(TagB, m, <<It(m, <<SQ(TagB, im, <<It(im, <<ElC, NestElem(vr)>>), It(im, <<ElC>>)>>), NestElem(vr)>>)>>), ElC>> :
+                        m \in Modes, im \in Modes } : vr \in VRs \ {"SQ"} }
+
+StructCases == Ctx4(V2) \cup With(Chain3) \cup TwoSeq \cup PixCases \cup VRNestCases
 Struct3Cases == Ctx4(V3)
 
 (* a smaller structural set for model checking the writer machine *)
@@ -117,7 +180,7 @@ StructSmall == With(V1) \cup With(Chain3) \cup TwoSeq \cup PixCases
 StructTiny == With(V1s(TagB)) \cup {<<x>> : x \in PixSmall}
                 \cup {<<SQ(TagIcon, "E", <<It("E", <<x>>), It("E", <<ElC>>)>>), x>> : x \in PixSmall}
 
-DataSetsOf(sweep) == CASE sweep = "vr" -> VRCases
+DataSetsOf(sweep) == CASE sweep = "vr" -> VRCases \cup TypedCases \cup CharsetCases
                        [] sweep = "struct" -> StructCases
                        [] sweep = "struct3" -> Struct3Cases
                        [] sweep = "small" -> StructSmall
